@@ -113,12 +113,17 @@ Section Resolvers.
     | LRestricted => restricted allow inner
     end.
 
-  Definition default_stack (allowed_network_hosts : option (list pat)) (allow_redirects : bool) (client : resolver)
-    : resolver :=
+  Definition stack_of (with_list without_list : list layer)
+             (allowed_network_hosts : option (list pat)) (allow_redirects : bool) (client : resolver) : resolver :=
     match allowed_network_hosts with
-    | Some hs => fold_right (wrap (Some hs) allow_redirects) client layers_with_allow_list
-    | None => fold_right (wrap None allow_redirects) client layers_without_allow_list
+    | Some hs => fold_right (wrap (Some hs) allow_redirects) client with_list
+    | None => fold_right (wrap None allow_redirects) client without_list
     end.
+
+  (* build_default_sync_resolver *)
+  Definition default_stack := stack_of sync_layers_with_allow_list sync_layers_without_allow_list.
+  (* build_default_async_resolver (read separately from the source) *)
+  Definition default_stack_async := stack_of async_layers_with_allow_list async_layers_without_allow_list.
 End Resolvers.
 
 (* ---- a concrete URI type for the correspondence run: the components the harness observed, and the
